@@ -57,7 +57,7 @@ M = [
  # ---- C12 capacity
  ("C12-eeprom-ge", "C12", "src/builder/pass1.rs", "SegmentType::Eeprom => device.eeprom_size as u64,", "SegmentType::Eeprom => (device.eeprom_size as u64).saturating_sub(1),", "EEPROM filled exactly to capacity is rejected"),
  ("C12-mega16-eeprom", "C12", "src/device.rs", "\"ATmega16\" => Device {flash_size: 8192, ram_start: 0x60, ram_size: 1024, eeprom_size: 512,", "\"ATmega16\" => Device {flash_size: 8192, ram_start: 0x60, ram_size: 1024, eeprom_size: 1024,", "one table row disagrees with its part file"),
- ("C12-ram-limit-ignores-start", "C12", "src/builder/pass1.rs", "SegmentType::Data => device.ram_start as u64 + device.ram_size as u64,", "SegmentType::Data => (device.ram_start as u64 + device.ram_size as u64).max(0x100),", "RAM limit never below 0x100 (tiny parts accept too much)"),
+ ("C12-ram-limit-assumes-0x60", "C12", "src/builder/pass1.rs", "SegmentType::Data => device.ram_start as u64 + device.ram_size as u64,", "SegmentType::Data => 0x60 + device.ram_size as u64,", "RAM limit assumes that RAM starts at 0x60 (parts with another start reject a full RAM)"),
  # ---- C13 device gate
  ("C13-fmulsu-ungated", "C13", "src/device.rs", "            | Operation::Fmuls\n            | Operation::Fmulsu => self.allow(NoMul),", "            | Operation::Fmuls => self.allow(NoMul),", "fmulsu slips through NoMul"),
  ("C13-push-ungated", "C13", "src/device.rs", "            | Operation::Sts\n            | Operation::Push\n            | Operation::Pop => {", "            | Operation::Sts\n            | Operation::Pop => {", "push allowed on Tiny1x parts"),
@@ -76,6 +76,7 @@ M = [
  ("C16-macro-depth-huge", "C16", "src/builder/pass0.rs", "const MAX_MACRO_DEPTH: usize = 128;", "const MAX_MACRO_DEPTH: usize = 128_000_000;", "recursive macros run away again"),
  # ---- C17 independence
  ("C17-device-cache", "C17", "src/context.rs", "            device: Rc::new(RefCell::new(Some(Device::new(0)))),", "            device: Rc::new(RefCell::new(Some(LAST_DEVICE.with(|d| d.borrow().clone())))),", "context starts from a thread-local 'last device' cache"),
+ ("C17-include-cache-by-name", "C17", "src/parser.rs", "    let mut source = String::new();\n    file.read_to_string(&mut source)?;", "    let mut source = String::new();\n    file.read_to_string(&mut source)?;\n    let cache_key = current_path.file_name().map(|n| n.to_string_lossy().to_string()).unwrap_or_default();\n    let source = INCLUDE_CACHE.with(|c| c.borrow_mut().entry(cache_key).or_insert(source).clone());", "included files cached per thread by file name"),
  # ---- C18 CLI
  ("C18-write-failure-exit0", "C18", "src/app/main.rs", "                    Err(e) => {\n                        failed = true;\n                        println!(\n                            \"Failed to generate and write hex file {}, with error {}\",\n                            file_name, e\n                        )\n                    }\n                }\n            } else {\n                println!(\"Nothing to write of code", "                    Err(e) => {\n                        println!(\n                            \"Failed to generate and write hex file {}, with error {}\",\n                            file_name, e\n                        )\n                    }\n                }\n            } else {\n                println!(\"Nothing to write of code", "flash write failure no longer changes the exit status"),
  ("C18-eep-name", "C18", "src/app/main.rs", "out_file_name += \".eep.hex\";", "out_file_name += \".eep\";", "default EEPROM file gets the wrong name"),
@@ -83,6 +84,9 @@ M = [
 
 # the C17 mutant needs a second cooperating site
 M_EXTRA = {
+ "C17-include-cache-by-name": [
+   ("src/parser.rs", "pub fn parse_file_internal(context: &ParseContext) -> Result<(), Error> {", "thread_local! {\n    static INCLUDE_CACHE: RefCell<HashMap<String, String>> = RefCell::new(HashMap::new());\n}\n\npub fn parse_file_internal(context: &ParseContext) -> Result<(), Error> {"),
+ ],
  "C17-device-cache": [
    ("src/context.rs", "impl CommonContext {\n    pub fn new() -> Self {", "thread_local! {\n    static LAST_DEVICE: RefCell<Device> = RefCell::new(Device::new(0));\n}\n\nimpl CommonContext {\n    pub fn remember_device(&self) {\n        if let Some(d) = self.device.borrow().as_ref() {\n            LAST_DEVICE.with(|l| *l.borrow_mut() = d.clone());\n        }\n    }\n\n    pub fn new() -> Self {"),
    ("src/builder/mod.rs", "    let device = common_context.get_device();\n\n    if passed_2.code.len()", "    let device = common_context.get_device();\n    common_context.remember_device();\n\n    if passed_2.code.len()"),
